@@ -163,6 +163,8 @@ func CTORSites() []Site {
 		{Tag: "twin group-sibling var U2", Stmt: "var $v {U2}; _ = $v", Subj: SubjTwin},
 		// silent forms
 		{Tag: "silent var p *T", Stmt: "var $v {PT}; _ = $v", Subj: SubjSilent, Core: true, PkgLevel: "var $g {PT}"},
+		{Tag: "silent var p LP (local alias of *T)", Stmt: "{ type LP = {PT}; var $v LP; _ = $v; var $vb, $vc LP; _, _ = $vb, $vc }", Subj: SubjSilent, Core: true},
+		{Tag: "silent var p **T, []T, map, chan, func", Stmt: "{ var $v *{PT}; var $vb []{T}; var $vc map[string]{T}; var $vd chan {T}; var $ve func() {T}; use($v, $vb, $vc, $vd, $ve) }", Subj: SubjSilent},
 		{Tag: "silent var _ T", Stmt: "var _ {T}", Subj: SubjSilent, PkgLevel: "var _ {T}"},
 		{Tag: "silent var v T = x", Stmt: "var $v {T} = x; _ = $v", Subj: SubjSilent},
 		{Tag: "silent var v = x", Stmt: "var $v = x; _ = $v", Subj: SubjSilent},
